@@ -336,6 +336,11 @@ PROPERTIES["C10"] = dict(
              "every buffer of length 0..=16", [("buf", B(16)), ("len", "usize")], "c10_header",
              asserts="no panic / out-of-bounds index for any buffer", panic_free=True,
              stubs=["data_format::v0::DeserializeFormat::deserialize -> Err (rmp-serde body decode is out of reach)"]),
+        kern("C10.atomic", "src/engine.rs", "h_engine.rs", "c10_atomic", [Q, T], 120, 1200, 12, ["engine::Engine::deserialize", "data_format::DeserializeFormat::deserialize (header/version dispatch)", "blocker::Blocker::tags_enabled"],
+             "every buffer of length 0..=8; engine with tag 'a' enabled, optimisation on, no rules", [("buf", B(8)), ("len", "usize")], "c10_atomic",
+             asserts="when loading fails (any header error, or any failure of the body decoder) the enabled tags, the options and the rule lists are what they were before the call",
+             stubs=["data_format::v0::DeserializeFormat::deserialize -> Err (the rmp-serde body decoder is a black box that fails)", "std::hash::RandomState::new -> fixed seed", "std::time::Instant::now -> frozen clock"] + CONTAINER_STUBS[:1],
+             subst=CONTAINER_SUBST, also_inject=[("src/data_format/mod.rs", "h_data_format_mod.rs")]),
         kern("C10.rule_a", "src/filters/network_matchers.rs", "h_network_matchers.rs", "c10_rule_a", [Q, T], 5, 300, 4,
              ["filters::network_matchers::check_pattern (all arms)", "filters::network_matchers::check_options"],
              "decoded rule value: any of the 2^32 masks, hostname absent, pattern empty; fixed well-formed request", [("m", "u32")], "c10_rule_a",
